@@ -865,9 +865,94 @@ func (c *Ctx) shardCoverage(rule, op string, paths []*pw.Path, replaceOK bool) (
 	}
 	if n == 0 {
 		ok = false
-		c.R.Unknown(rule, op, "no step of a loop over the shard array found (the shard array does not resolve)")
+		if pos, what := c.partitionDropsRemainder(op); what != "" {
+			c.R.Bad(rule, op, "partition-drops-remainder", c.Pos(pos), what, nil)
+		} else {
+			c.R.Unknown(rule, op, "no step of a loop over the shard array found (the shard array does not resolve)")
+		}
 	}
 	return n, ok
+}
+
+// partitionDropsRemainder recognises one way of not covering the shard array that needs no path reasoning: the array is handed out
+// in chunks arr[i*q:(i+1)*q] with q computed by an integer division N/k, and no chunk is open-ended or bounded by the array's
+// length: the chunks end at k·(N/k), which is N only when k divides N — the last N mod k shards are never visited.
+func (c *Ctx) partitionDropsRemainder(op string) (token.Pos, string) {
+	fd, _ := c.funcDecl(op)
+	if fd == nil || fd.Body == nil {
+		return 0, ""
+	}
+	info := c.Pkg.TypesInfo
+	var hit token.Pos
+	open := false
+	for _, d := range c.reachBodies(fd, 2) {
+		quot := map[types.Object]bool{}
+		ast.Inspect(d.Body, func(x ast.Node) bool {
+			as, ok := x.(*ast.AssignStmt)
+			if !ok || len(as.Lhs) != len(as.Rhs) {
+				return true
+			}
+			for i, rhs := range as.Rhs {
+				be, ok := ast.Unparen(rhs).(*ast.BinaryExpr)
+				if !ok || be.Op != token.QUO {
+					continue
+				}
+				if bt, ok := info.TypeOf(be).Underlying().(*types.Basic); !ok || bt.Info()&types.IsInteger == 0 {
+					continue
+				}
+				if id, ok := as.Lhs[i].(*ast.Ident); ok {
+					if o := info.ObjectOf(id); o != nil {
+						quot[o] = true
+					}
+				}
+			}
+			return true
+		})
+		ast.Inspect(d.Body, func(x ast.Node) bool {
+			se, ok := x.(*ast.SliceExpr)
+			if !ok {
+				return true
+			}
+			sel, ok := ast.Unparen(se.X).(*ast.SelectorExpr)
+			if !ok {
+				return true
+			}
+			sl := info.Selections[sel]
+			if sl == nil || sl.Kind() != types.FieldVal || selFieldName(sl) != "hashedBuckets" {
+				return true
+			}
+			if se.High == nil {
+				open = true
+				return true
+			}
+			usesQuot, usesLen := false, false
+			ast.Inspect(se.High, func(y ast.Node) bool {
+				switch z := y.(type) {
+				case *ast.Ident:
+					if quot[info.ObjectOf(z)] {
+						usesQuot = true
+					}
+					if z.Name == "len" || z.Name == "min" {
+						usesLen = true
+					}
+					if cst, ok := info.ObjectOf(z).(*types.Const); ok && cst != nil {
+						usesLen = true // a bound by the array's declared size
+					}
+				}
+				return true
+			})
+			if usesLen {
+				open = true
+			} else if usesQuot && hit == 0 {
+				hit = se.Pos()
+			}
+			return true
+		})
+	}
+	if hit != 0 && !open {
+		return hit, "the shard array is handed out in chunks whose size is an integer quotient (N/k) and no chunk is open-ended or bounded by the array's length: the chunks end at k·(N/k), so the last N mod k shards are never visited whenever k does not divide N"
+	}
+	return 0, ""
 }
 
 // c07Batch: R07.4.
